@@ -408,6 +408,23 @@ pub fn run_inject(cfg: &Cfg) {
     let txts = texts("c01", if thorough { "quick" } else { "quick" });
     let opts = Opts::default();
     let mut seen = HashSet::new();
+    // fixed witness of known finding F1 (outside the generated space, which has no empty loops)
+    if cfg.shard == 0 {
+        let (p1, p2, t) = ("(?:|a)*", "(?=)(?:|a)*", "a");
+        let b1 = s.pattern(p1, &opts, false, false);
+        let a1 = if b1.re.is_some() { s.caps(&b1, t, 0, false, 1_000_000) } else { String::new() };
+        let b2 = s.pattern(p2, &opts, false, false);
+        if b1.re.is_some() && b2.re.is_some() {
+            let a2 = s.caps(&b2, t, 0, false, 1_000_000);
+            if a1 != a2 {
+                s.violation(
+                    "C03",
+                    "metamorphic",
+                    &[("pattern", p1.to_string()), ("pattern2", p2.to_string()), ("text", t.to_string()), ("pos", "0".to_string()), ("base", a1), ("injected", a2)],
+                );
+            }
+        }
+    }
     for (i, base) in bases.iter().enumerate() {
         if i % cfg.nshards != cfg.shard {
             continue;
